@@ -57,7 +57,8 @@ func filterLocator(f Filter) Locator {
 func tryLocation(s string) (Location, bool) {
 	var parser pars.Parser
 	parser = pars.Any(parseComplement(&parser), parseRange, parsePoint)
-	result, err := parser.Parse(pars.FromString(s))
+	// The whole string must be a location: `5'UTR` is a selector, not point 5.
+	result, err := pars.Exact(parser).Parse(pars.FromString(s))
 	if err != nil {
 		return nil, false
 	}
